@@ -545,8 +545,14 @@ namespace mustache {
         SharedComponentPtr getCreatedSharedComponent(const SharedComponentPtr& ptr, SharedComponentId id);
 
         template<typename Component, typename TupleType, size_t... _I>
-        void initComponent(void* ptr, World& world, const Entity& e, TupleType& tuple, std::index_sequence<_I...>&&) {
-            ComponentFactory::instance().initComponent<Component>(ptr, world, e,std::get<_I>(tuple)...);
+        void initComponent(void* ptr, [[maybe_unused]] World& world, [[maybe_unused]] const Entity& e,
+                           [[maybe_unused]] TupleType& tuple, std::index_sequence<_I...>&&) {
+            // ptr is a command-buffer temporary (locked paths only): afterAssign fires once, when the value is attached at unlock
+            if constexpr (sizeof...(_I) > 0) {
+                new(ptr) Component{std::get<_I>(tuple)...};
+            } else if constexpr (!std::is_trivially_default_constructible<Component>::value) {
+                ComponentInfo::componentConstructor<Component>(ptr, e, world);
+            }
         }
 
         template<typename Component, typename TupleType, size_t... _I>
@@ -877,7 +883,9 @@ namespace mustache {
         auto component_ptr = assign<use_custom_constructor>(e, component_id);
         if constexpr(use_custom_constructor) {
             component_ptr = static_cast<void*>(new(component_ptr) T{std::forward<_ARGS>(args)...});
-            ComponentInfo::afterComponentAssign<T>(component_ptr, e, world_);
+            if (!isLocked()) { // while locked this is a command-buffer temporary: afterAssign fires when it is attached at unlock
+                ComponentInfo::afterComponentAssign<T>(component_ptr, e, world_);
+            }
         }
         return *reinterpret_cast<T*>(component_ptr);
     }
